@@ -158,7 +158,8 @@ def main(argv):
             body, n, sc = line.rsplit(" ", 2)
             # a finished render releases every reactive node it created: once the render has returned / the stream has ended no more
             # nodes are alive in its root than when the render started
-            if after not in (None, "-") and int(after) > int(n.split("=")[1]):
+            # (an idle root holds exactly its root scope)
+            if after not in (None, "-") and int(after) > 1:
                 mfail.append({"what": "a finished render did not release the reactive nodes it created", "render": " ".join(e),
                               "live_at_start": int(n.split("=")[1]), "live_after_finish": int(after)})
             mode = e[0] if e[0] == "sync" else e[1]
